@@ -280,6 +280,39 @@ def run(ctx):
             if not (close(lo2, lo, R9) and close(hi2, hi, R9)):
                 ctx.violation("C11:unprefixed-changes-si-value", f"{q!r}.unprefixed() = {un!r}", {"unit": base_term, "a": pa[0]})
             ctx.count("identities/unprefixed_si_value")
+    # roots of quantities whose prefix was applied AFTER the power (kilo * metre**2, not (kilo*metre)**2): the factors have a
+    # whole root, the prefix may not.  Either the root is refused (FractionalDimensionError), or its n-th power is the
+    # quantity it was taken from - the prefix is part of the value
+    for _ in range(ctx.scale(150, 15000)):
+        nm, p = rng.choice(prefixes)
+        u = rng.choice([Meter, pools.units["second"], pools.units["gram"], pools.units["bit"] if "bit" in pools.units else Meter])
+        n = rng.choice([2, 3, -2, 2])
+        v = rng.choice([u, u / pools.units["second"]]) if u is not pools.units["second"] else u
+        x = p * v ** n if rng.random() < 0.7 else (p * v) ** n
+        mag = rng.choice([4, 16.0, 27, 0.25, 1e6, 64])
+        q = m.Quantity(mag, x)
+        ctx.count("evaluations")
+        ctx.count("roots_of_quantities_with_a_prefix_outside_the_power")
+        ctx.distinct(("root-after-prefix", nm, str(v), n), True)
+        try:
+            r = q.root(n)
+        except m.FractionalDimensionError:
+            ctx.count("roots_of_quantities_refused")
+            continue
+        except (ZeroDivisionError, OverflowError, ValueError):
+            continue
+        except Exception as e:
+            ctx.violation(f"C11:raised:{type(e).__name__}", f"({q!r}).root({n}): {e}", {"prefix": nm, "n": n})
+            continue
+        try:
+            back = r ** n
+            whole = oracle.F(q.magnitude) * oracle.prefix_value(q.unit.prefix)
+            again = oracle.F(back.magnitude) * oracle.prefix_value(back.unit.prefix)
+        except Exception:
+            continue
+        if back.unit.factors != q.unit.factors or not close(again, whole, R9):
+            ctx.violation("C11:root-of-prefixed-quantity-loses-the-prefix", f"({q!r}).root({n}) = {r!r}, whose power {n} is {back!r}: not the quantity it was taken from",
+                          {"prefix": nm, "unit": str(v), "n": n, "mag": repr(mag)})
     # Decimal readings first touched while the program has a coarse decimal context in force (a report printed with 6
     # digits: compared, stripped of its prefix, converted there), then used again under the ordinary context: the
     # identities hold to the digits of the context in force NOW.  Every reading is a number nobody has used before
@@ -294,6 +327,7 @@ def run(ctx):
         q = x * (p * u)
         ctx.count("evaluations")
         ctx.count("decimal_readings_first_touched_under_a_coarse_context")
+        mon.paused = True     # what is computed under 5 digits is right to 5 digits: not the conversion monitor's business
         with decimal.localcontext() as coarse:
             coarse.prec = rng.choice([5, 6, 7, 9])
             for touch in rng.sample([lambda: q.unprefixed(), lambda: q == (1 * u), lambda: q < (1 * u), lambda: q.in_unit(u), lambda: q + (1 * u), lambda: hash(q)], 3):
@@ -301,6 +335,7 @@ def run(ctx):
                     touch()
                 except Exception:
                     pass
+        mon.paused = False
         pv = oracle.prefix_value(p)
         exact = oracle.F(x) * pv
         case = {"reading": str(x), "prefix": nm, "unit": str(u)}
